@@ -327,9 +327,28 @@ def check(prop: str, tier: str) -> int:
             undecided = [u for u in undecided if u not in open_obls] + \
                 [f"(solver left {len(open_obls)} obligation(s) open; the native stand-in reproduced a failure)"]
 
+    # known findings that only the native harness can exhibit (no obligation reaches them): replayed with their switch on;
+    # while they reproduce they are printed as KNOWN-FINDING (and suppress nothing else)
+    native_known = []
+    for k in known:
+        if k.get("status") == "known" and k.get("property") == prop and k.get("native_only"):
+            script = os.path.join(ROOT, "harness", f"{prop}_replay.py")
+            try:
+                cp = subprocess.run(["/venv/bin/python", script], input="{}", capture_output=True, text=True, timeout=300, cwd=ROOT,
+                                    env={**os.environ, **k.get("native_replay_env", {}),
+                                         "PYTHONPATH": os.environ.get("VERIF_REPO", "/repo") + "/src"})
+                rk = json.loads((cp.stdout.strip().splitlines() or ["{}"])[-1])
+            except Exception:  # noqa
+                rk = {}
+            if rk.get("reproduced"):
+                native_known.append(k)
+
     # ---- report
     os.makedirs(os.path.join(ROOT, "replays", prop), exist_ok=True)
     printed = set()
+    for k in native_known:
+        printed.add(k["what"])
+        print(f"KNOWN-FINDING: property={prop} {k['what']}")
     for k, full, o in known_hits:
         key = k["what"]
         if key not in printed:
@@ -370,7 +389,7 @@ def check(prop: str, tier: str) -> int:
         print(f"UNDECIDED: {u}")
 
     wall = time.time() - t0
-    unrepaired = sorted({k["what"] for k, _, _ in known_hits})
+    unrepaired = sorted({k["what"] for k, _, _ in known_hits} | {k["what"] for k in native_known})
     ev = dict(
         property_id=prop, tier=tier, seed=seed, level="proof",
         coverage=dict(
@@ -457,6 +476,9 @@ def main(argv):
         return 0
     if argv and argv[0] == "known":
         return known()
+    if argv and argv[0] == "selfcheck":
+        from pyvc import selfcheck
+        return selfcheck.main()
     if len(argv) < 1:
         print(__doc__)
         return 3
